@@ -119,8 +119,10 @@ def f1_merge_stores(ctx: Ctx) -> None:
                 key = f'{name}={txt[:70]}'
                 if isinstance(v, ast.Call) and isinstance(v.func, ast.Attribute) and v.func.attr == 'copy' and not v.args:
                     src = norm(v.func.value)
-                    if f.qualname in SAME_SOURCE:
-                        ctx.ok(R, f, a, f'copy of `{src}` written with same-source values — exception table: {SAME_SOURCE[f.qualname]}', key=key)
+                    origin = getattr(a, '_sfa_origin', None)       # the helper this statement was spliced in from
+                    why = SAME_SOURCE.get(f.qualname) or (next((w for q, w in SAME_SOURCE.items() if q.endswith('.' + origin)), None) if origin else None)
+                    if why is not None:
+                        ctx.ok(R, f, a, f'copy of `{src}` written with same-source values — exception table: {why}', key=key)
                         continue
                     enc = _enclosing_if(f, a)
                     ok = False
